@@ -182,12 +182,23 @@ Proof. left. split; intros k [<-|[]] _; discriminate. Qed.
 Definition C07_atomic (fl : flags) : Prop :=
   forall o p e o', wf o -> copy_args_ok o p -> step fl o p = Some (Failed e o') -> unchanged_or_stub o o'.
 
-(* REPAIRED code (fixes/C07-rv-no-cell-touched-stale-cells.patch + C07-rv-valueless-child-stale-data.patch): holds *)
-Theorem C07_atomic_repaired : C07_atomic repaired.
+(* REPAIRED code (the checked tree), objects and operations without per-element text data: every failing operation leaves the
+   object as it was.  Remaining hypotheses are about the request itself: a copy gets a vertex mask or a cell mask (no
+   cell mask on Points), add_data does not add text data *)
+Theorem C07_atomic_repaired : forall o p e o',
+  wf o -> no_text_kids o -> op_plain o p -> step repaired o p = Some (Failed e o') -> unchanged_or_stub o o'.
+Proof.
+  intros o p e o' W HT HP H. eapply step_failed; eauto. apply op_safe_repaired. apply plain_args_ok; assumption.
+Qed.
+Print Assumptions C07_atomic_repaired.
+
+(* PARTIAL (repaired code, text data allowed): the same under [copy_args_ok], which in addition excludes the three open
+   text-data findings: text arrays shorter than the element count, removals that leave a text child without entries *)
+Theorem C07_atomic_repaired_partial : C07_atomic repaired.
 Proof.
   intros o p e o' W HC H. eapply step_failed; eauto. apply op_safe_repaired. exact HC.
 Qed.
-Print Assumptions C07_atomic_repaired.
+Print Assumptions C07_atomic_repaired_partial.
 
 (* REFUTED for the pinned tree: removing vertex 0, used by no cell, from a 4-vertex curve raises after the vertices
    and vertex data were replaced; the cells are left un-renumbered (witness replayed on the implementation) *)
@@ -206,10 +217,17 @@ Proof. intros o p e o'. apply step_failed. Qed.
 Print Assumptions C07_atomic_as_is_partial.
 
 (* ------------------------------------------------------------------ histories *)
-(* consistency is an invariant of every history of the repaired code (successful or failing operations, re-opens) *)
-Theorem C07_history_consistent_repaired : forall ops o, wf o -> copies_ok o ops -> wf (run repaired o ops).
-Proof. exact run_wf_repaired. Qed.
+(* consistency is an invariant of every history of the repaired code that involves no per-element text data (successful or
+   failing operations, re-opens); the history also never acquires text data *)
+Theorem C07_history_consistent_repaired : forall ops o, wf o -> no_text_kids o -> plain_ok o ops ->
+  wf (run repaired o ops) /\ no_text_kids (run repaired o ops).
+Proof. exact run_wf_repaired_no_text. Qed.
 Print Assumptions C07_history_consistent_repaired.
+
+(* PARTIAL (text data allowed): under [copies_ok] = [copy_args_ok] at every step (excludes the open text-data findings) *)
+Theorem C07_history_consistent_repaired_partial : forall ops o, wf o -> copies_ok o ops -> wf (run repaired o ops).
+Proof. exact run_wf_repaired. Qed.
+Print Assumptions C07_history_consistent_repaired_partial.
 
 (* REFUTED for the pinned tree: one valid removal makes a cell reference a missing vertex *)
 Theorem C07_history_consistent_refuted : ~ (forall ops o, wf o -> copies_ok o ops -> wf (run as_is o ops)).
@@ -257,6 +275,14 @@ Proof.
   - simpl. split; [|exact I]. left. split; intros k [<-|[<-|[]]] _; discriminate.
   - vm_compute. reflexivity.
   - vm_compute. reflexivity.
+Qed.
+
+(* the hypotheses of the text-free theorems are met by the example object and a history with a removal, an assignment, a copy *)
+Example C07_plain_nonvacuous :
+  no_text_kids ex_obj /\
+  plain_ok ex_obj [RemoveVertices [3; -4; 3]%Z; SetValues 1 [Some 1%Z]; MaskedCopy (Some [true; false; true]) None; Reopen [2; 1]].
+Proof.
+  split; [repeat constructor; discriminate|]. simpl. repeat split; auto.
 Qed.
 
 (* the refuted statements' hypotheses are met by the witness (so the refutation is not about an ill-formed input) *)
